@@ -1,0 +1,153 @@
+//go:build verif
+
+// Contracts for package runtimev2 (comment-only; read by /verif/plvc).
+
+package runtimev2
+
+//@ default nonnil *Task
+//@ default nonnil *PlReg
+//@ default nonnil *ast.CallExpr
+
+// ---------------------------------------------------------------------------
+// C19: parameter lists and argument binding
+
+//@ spec isOpt(p *Param) bool = p.Val != nil
+//@ spec isReq(p *Param) bool = p.Val == nil && !p.Variable
+
+//@ extern unicode.IsLetter
+//@ pure
+//@ extern unicode.IsDigit
+//@ pure
+//@ extern fmt.Errorf
+//@ pure
+//@ ensures result != nil
+//@ extern fmt.Sprintf
+//@ pure
+
+//@ func isValidParamName
+//@ props C19
+//@ pure
+//@ ensures len(name) == 0 ==> result != nil
+
+// A parameter list is accepted exactly when: every name passes isValidParamName,
+// names are pairwise distinct, no parameter without default follows one with a default,
+// and a variadic parameter is the last one, unique, and not mixed with defaults.
+//@ func CheckFnParamDef
+//@ props C19
+//@ requires forall i :: 0 <= i && i < len(params) ==> params[i] != nil
+//@ ensures result == nil ==> ncalls(isValidParamName) == tomath(len(params))
+//@ ensures result == nil ==> (forall k mathint :: 0 <= k && k < ncalls(isValidParamName) ==> callarg(isValidParamName, k, 0) == params[toint(k)].Name && callres(isValidParamName, k, 0) == nil)
+//@ ensures result == nil ==> (forall i, j :: 0 <= i && i < j && j < len(params) ==> params[i].Name != params[j].Name)
+//@ ensures result == nil ==> (forall i, j :: 0 <= i && i < j && j < len(params) ==> (isOpt(params[i]) ==> isOpt(params[j])))
+//@ ensures result == nil ==> (forall i :: 0 <= i && i < len(params) && params[i].Variable ==> i == len(params) - 1)
+//@ ensures result == nil ==> (forall i, j :: 0 <= i && i < len(params) && 0 <= j && j < len(params) && params[i].Variable ==> !isOpt(params[j]))
+// conversely, a list with all those properties is accepted
+//@ ensures (forall k mathint :: 0 <= k && k < ncalls(isValidParamName) ==> callres(isValidParamName, k, 0) == nil)
+//@ | && (forall i, j :: 0 <= i && i < j && j < len(params) ==> params[i].Name != params[j].Name)
+//@ | && (forall i, j :: 0 <= i && i < j && j < len(params) ==> (isOpt(params[i]) ==> isOpt(params[j])))
+//@ | && (forall i :: 0 <= i && i < len(params) && params[i].Variable ==> i == len(params) - 1)
+//@ | && (forall i, j :: 0 <= i && i < len(params) && 0 <= j && j < len(params) && params[i].Variable ==> !isOpt(params[j]))
+//@ | ==> result == nil
+//@ loop 1
+//@ invariant ncalls(isValidParamName) == tomath(rangeindex) + 1
+//@ invariant forall k mathint :: 0 <= k && k < ncalls(isValidParamName) ==> callarg(isValidParamName, k, 0) == params[toint(k)].Name && callres(isValidParamName, k, 0) == nil
+//@ invariant names != nil
+//@ invariant forall n string :: dom(names, n) <==> (exists k :: 0 <= k && k <= rangeindex && params[k].Name == n)
+//@ invariant forall i, j :: 0 <= i && i < j && j <= rangeindex ==> params[i].Name != params[j].Name
+//@ invariant optional <==> (exists k :: 0 <= k && k <= rangeindex && isOpt(params[k]))
+//@ invariant forall i, j :: 0 <= i && i < j && j <= rangeindex ==> (isOpt(params[i]) ==> isOpt(params[j]))
+//@ invariant variable <==> (exists k :: 0 <= k && k <= rangeindex && params[k].Variable)
+//@ invariant forall i :: 0 <= i && i <= rangeindex && params[i].Variable ==> i == len(params) - 1
+//@ invariant variable ==> !optional
+
+//@ spec isNamed(n *ast.Node) bool = n.NodeType == ast.TypeAssignmentExpr
+//@ spec lastVariadic(params []*Param) bool = len(params) > 0 && params[len(params)-1].Variable
+
+//@ func NewRunError
+//@ props C19 C18
+//@ pure
+//@ ensures result != nil
+
+//@ extern github.com/GuanceCloud/platypus/pkg/ast.NodeStartPos
+//@ pure
+
+// Binding of call arguments to declared parameters (the parameter list is assumed to have
+// passed CheckFnParamDef and every argument node is non-nil).
+//@ func CheckPassParam
+//@ props C19
+//@ requires forall i :: 0 <= i && i < len(params) ==> params[i] != nil
+//@ requires forall i :: 0 <= i && i < len(expr.Param) ==> expr.Param[i] != nil
+//@ requires forall i, j :: 0 <= i && i < j && j < len(params) ==> (isReq(params[j]) ==> isReq(params[i]))
+//@ modifies expr.ParamNormalized
+//@ ensures result == nil ==> len(expr.ParamNormalized) >= len(params) && len(expr.ParamNormalized) >= len(expr.Param)
+// every required parameter is bound
+//@ ensures result == nil ==> (forall i :: 0 <= i && i < len(params) && isReq(params[i]) ==> expr.ParamNormalized[i] != nil)
+// no positional argument after a named one; no named argument together with a variadic parameter
+//@ ensures result == nil ==> (forall i, j :: 0 <= i && i < j && j < len(expr.Param) && isNamed(expr.Param[i]) ==> isNamed(expr.Param[j]))
+//@ ensures result == nil && lastVariadic(params) ==> (forall i :: 0 <= i && i < len(expr.Param) ==> !isNamed(expr.Param[i]))
+// more arguments than parameters are only accepted by a variadic parameter
+//@ ensures result == nil && !lastVariadic(params) ==> len(expr.Param) <= len(params)
+//@ loop 1
+//@ invariant len(newArgs) >= len(params) && len(newArgs) >= len(expr.Param) && fresh(newArgs)
+//@ invariant varbParam <==> lastVariadic(params)
+//@ invariant namedParam <==> (exists k :: 0 <= k && k <= rangeindex && isNamed(expr.Param[k]))
+//@ invariant forall i, j :: 0 <= i && i < j && j <= rangeindex && isNamed(expr.Param[i]) ==> isNamed(expr.Param[j])
+//@ invariant varbParam ==> !namedParam
+//@ loop 2
+//@ invariant len(newArgs) >= len(params) && len(newArgs) >= len(expr.Param) && fresh(newArgs)
+//@ loop 3
+//@ invariant len(newArgs) >= len(params) && len(newArgs) >= len(expr.Param) && fresh(newArgs)
+//@ invariant forall k :: 0 <= k && k <= rangeindex ==> isReq(params[k]) && newArgs[k] != nil
+
+//@ func GetParam
+//@ props C19
+//@ requires i >= 0
+//@ requires forall k :: 0 <= k && k < len(params) ==> params[k] != nil
+//@ ensures i >= len(params) || i >= len(expr.ParamNormalized) ==> result1 != nil
+//@ ensures i < len(params) && i < len(expr.ParamNormalized) && !old(params[i].Variable) && old(expr.ParamNormalized[i]) == nil && old(params[i].Val) == nil ==> result1 != nil
+//@ ownensures i < len(params) && i < len(expr.ParamNormalized) && old(params[i].Variable) && old(expr.ParamNormalized[i]) == nil ==> result1 == nil
+
+//@ func GetParamInt
+//@ like GetParam
+//@ props C19
+//@ func GetParamFloat
+//@ like GetParam
+//@ props C19
+//@ func GetParamBool
+//@ like GetParam
+//@ props C19
+//@ func GetParamString
+//@ like GetParam
+//@ props C19
+//@ func GetParamList
+//@ like GetParam
+//@ props C19
+//@ func GetParamMap
+//@ like GetParam
+//@ props C19
+
+// what evaluating a v2 expression may write on pre-existing objects: the task's flags,
+// registers and scope cursor, variables, list/map contents. Never the syntax tree, the
+// parameter descriptions or package-level tables.
+//@ frame v2Frame = ctx.loopBreak, ctx.loopContinue, ctx.procExit, ctx.stackCur, ctx.Regs, elemsof(V),
+//@ | runtime.Stack.CheckPattern, runtime.Stack.Data, maptype(map[string]*runtime.Varb), runtime.Varb.Value, runtime.Varb.DType,
+//@ | elemsof(any), maptype(map[string]any)
+
+//@ func RunExpr
+//@ props C18 C19
+//@ modifies v2Frame
+
+//@ functype FnCall
+//@ params ctx fn
+//@ requires ctx != nil && fn != nil
+//@ modifies v2Frame
+
+// default-value thunks of parameter descriptions are pure
+//@ functype func() any
+//@ pure
+
+//@ func (*PlReg).GetRet
+//@ props C18 C19
+//@ pure
+//@ ensures len(reg.Val) == 1 ==> result1 == nil && result0 == reg.Val[0]
+//@ ensures len(reg.Val) != 1 ==> result1 != nil
